@@ -21,7 +21,7 @@ pub static SPEC: PropSpec = PropSpec {
     case_cpu_s: 120,
     shards: 0,
     run,
-    floors: &[("evaluations", 200_000, 1_500_000), ("programs_run", 40, 300), ("out_of_range_literals_rejected", 30, 60), ("div_zero_failures_checked", 8, 20), ("float_checks", 500, 5_000)],
+    floors: &[("evaluations", 200_000, 1_500_000), ("programs_run", 40, 300), ("out_of_range_literals_rejected", 30, 60), ("div_zero_failures_checked", 30, 30), ("float_checks", 500, 5_000)],
     finish: None,
 };
 
@@ -638,9 +638,6 @@ fn run(ctx: &mut Ctx) {
         jobs.push(Box::new(move |c| literal_spellings(c, t)));
         for unused in [false, true] {
             for literal_zero in [false, true] {
-                if !thorough && t != IntTy::I32 && t != IntTy::U8 && t != IntTy::I64 {
-                    continue;
-                }
                 jobs.push(Box::new(move |c| div_zero(c, t, unused, literal_zero)));
             }
         }
